@@ -135,8 +135,12 @@ func namesExec(c core.Case) core.Case {
 // ---- msgnames: one message M described by the case, generated at one API level; the declared identifiers are read
 // back from the emitted Go source with go/parser (never from protogen's data structures alone).
 //
-//	fields: [{n: name, mem: bool (member of the oneof), rep: bool (repeated)}]   field number = position
+//	fields: [{n: name, mem: bool (member of the oneof), rep: bool (repeated), dflt: bool (explicit default)}]   field number = position
 //	oname:  name of the one oneof (used iff some field has mem), nested: [names of nested messages], enums: [names of nested enums]
+//	nfields: per nested message the names of its fields (optional int32 with an explicit default; absent: none)
+//	evals:   per nested enum the names of its values (absent or empty: the single value ZZ_VALUE_<k>)
+//	exts:    names of extension fields declared inside M (they extend a top-level message ZZBase that exists only then)
+//	tenum:   [] or [{n: name, vals: [value names]}]: a top-level enum next to M
 func msgFile(c core.Case) *descriptorpb.FileDescriptorProto {
 	m := &descriptorpb.DescriptorProto{Name: proto.String("M")}
 	hasOneof := false
@@ -155,27 +159,62 @@ func msgFile(c core.Case) *descriptorpb.FileDescriptorProto {
 			fd.OneofIndex = proto.Int32(0)
 			hasOneof = true
 		}
+		if core.Bool(fm["dflt"]) {
+			fd.DefaultValue = proto.String("7")
+		}
 		m.Field = append(m.Field, fd)
 	}
 	if hasOneof {
 		m.OneofDecl = append(m.OneofDecl, &descriptorpb.OneofDescriptorProto{Name: proto.String(text(c["oname"]))})
 	}
-	for _, n := range core.List(c["nested"]) {
-		m.NestedType = append(m.NestedType, &descriptorpb.DescriptorProto{Name: proto.String(text(n))})
+	nfields, evals := core.List(c["nfields"]), core.List(c["evals"])
+	for k, n := range core.List(c["nested"]) {
+		nm := &descriptorpb.DescriptorProto{Name: proto.String(text(n))}
+		if k < len(nfields) {
+			for j, fn := range core.List(nfields[k]) {
+				nm.Field = append(nm.Field, &descriptorpb.FieldDescriptorProto{Name: proto.String(text(fn)), Number: proto.Int32(int32(j + 1)),
+					Type: descriptorpb.FieldDescriptorProto_TYPE_INT32.Enum(), Label: descriptorpb.FieldDescriptorProto_LABEL_OPTIONAL.Enum(),
+					DefaultValue: proto.String("7")})
+			}
+		}
+		m.NestedType = append(m.NestedType, nm)
 	}
 	for i, n := range core.List(c["enums"]) {
-		m.EnumType = append(m.EnumType, &descriptorpb.EnumDescriptorProto{
-			Name:  proto.String(text(n)),
-			Value: []*descriptorpb.EnumValueDescriptorProto{{Name: proto.String(fmt.Sprintf("ZZ_VALUE_%d", i)), Number: proto.Int32(0)}},
-		})
+		ed := &descriptorpb.EnumDescriptorProto{Name: proto.String(text(n))}
+		if i < len(evals) {
+			for j, vn := range core.List(evals[i]) {
+				ed.Value = append(ed.Value, &descriptorpb.EnumValueDescriptorProto{Name: proto.String(text(vn)), Number: proto.Int32(int32(j))})
+			}
+		}
+		if len(ed.Value) == 0 {
+			ed.Value = []*descriptorpb.EnumValueDescriptorProto{{Name: proto.String(fmt.Sprintf("ZZ_VALUE_%d", i)), Number: proto.Int32(0)}}
+		}
+		m.EnumType = append(m.EnumType, ed)
 	}
-	return &descriptorpb.FileDescriptorProto{
+	fd := &descriptorpb.FileDescriptorProto{
 		Name:        proto.String("t.proto"),
 		Package:     proto.String("p"),
 		Syntax:      proto.String("proto2"),
 		Options:     &descriptorpb.FileOptions{GoPackage: proto.String("example.com/p;p")},
 		MessageType: []*descriptorpb.DescriptorProto{m},
 	}
+	for k, x := range core.List(c["exts"]) {
+		if k == 0 {
+			fd.MessageType = append(fd.MessageType, &descriptorpb.DescriptorProto{Name: proto.String("ZZBase"),
+				ExtensionRange: []*descriptorpb.DescriptorProto_ExtensionRange{{Start: proto.Int32(1000), End: proto.Int32(2000)}}})
+		}
+		m.Extension = append(m.Extension, &descriptorpb.FieldDescriptorProto{Name: proto.String(text(x)), Number: proto.Int32(int32(1000 + k)),
+			Type: descriptorpb.FieldDescriptorProto_TYPE_INT32.Enum(), Label: descriptorpb.FieldDescriptorProto_LABEL_OPTIONAL.Enum(),
+			Extendee: proto.String(".p.ZZBase")})
+	}
+	for _, te := range core.List(c["tenum"]) {
+		ed := &descriptorpb.EnumDescriptorProto{Name: proto.String(text(core.Map(te)["n"]))}
+		for j, vn := range core.List(core.Map(te)["vals"]) {
+			ed.Value = append(ed.Value, &descriptorpb.EnumValueDescriptorProto{Name: proto.String(text(vn)), Number: proto.Int32(int32(j))})
+		}
+		fd.EnumType = append(fd.EnumType, ed)
+	}
+	return fd
 }
 
 func apiParam(level string) string {
@@ -389,6 +428,39 @@ func randIdent(r *rand.Rand, dots bool) []any {
 var nameVocab = []string{"foo", "Foo", "_foo", "X_foo", "foo_", "foo_1", "foo_2", "get_foo", "GetFoo", "set_foo", "has_foo", "clear_foo",
 	"which_foo", "build", "reset", "string", "descriptor", "proto_reflect", "proto_message", "bar", "get_bar", "Bar", "foo__", "get_get_foo"}
 
+var nestedFieldVocab = []string{"foo", "bar", "foo__foo", "x", "reset"}
+var valueVocab = []string{"FOO", "Foo", "foo", "builder", "Foo_name", "Bar_value", "Foo_case", "Foo_builder", "Bar_not_set_case", "XFoo"}
+
+var topEnumVocab = [][2]string{{"E", "M_Foo"}, {"E", "M_Bar"}, {"File", "t_proto"}, {"Default", "M_Foo"}, {"Bar", "Foo"}, {"e", "X"}}
+
+func inEvals(c core.Case, name string) bool {
+	for _, vs := range core.List(c["evals"]) {
+		for _, v := range core.List(vs) {
+			if text(v) == name {
+				return true
+			}
+		}
+	}
+	return false
+}
+
+// usedIn: is the name already declared in M's scope (field, oneof, nested message or enum)?
+func usedIn(c core.Case, name string) bool {
+	for _, f := range core.List(c["fields"]) {
+		if text(core.Map(f)["n"]) == name {
+			return true
+		}
+	}
+	for _, k := range []string{"nested", "enums"} {
+		for _, n := range core.List(c[k]) {
+			if text(n) == name {
+				return true
+			}
+		}
+	}
+	return text(c["oname"]) == name
+}
+
 func namesGen(r *rand.Rand, n int, emit func(core.Case)) {
 	for i := 0; i < n; i++ {
 		switch k := r.IntN(20); {
@@ -419,22 +491,45 @@ func randMsgCase(r *rand.Rand) core.Case {
 	}
 	anyMem := memFrom >= 0
 	for i := 0; i < nf; i++ {
-		f := core.Case{"n": runes(take()), "mem": i >= memFrom && i <= memTo, "rep": false}
+		f := core.Case{"n": runes(take()), "mem": i >= memFrom && i <= memTo, "rep": false, "dflt": false}
 		if !core.Bool(f["mem"]) && r.IntN(4) == 0 {
 			f["rep"] = true
+		} else if r.IntN(3) == 0 {
+			f["dflt"] = true
 		}
 		fields = append(fields, f)
 	}
 	c := core.Case{"op": "msgnames", "level": []string{"open", "hybrid", "opaque"}[r.IntN(3)], "fields": fields,
-		"oname": []any{}, "nested": []any{}, "enums": []any{}}
+		"oname": []any{}, "nested": []any{}, "enums": []any{}, "nfields": []any{}, "evals": []any{}, "exts": []any{}, "tenum": []any{}}
 	if anyMem {
 		c["oname"] = runes(take())
 	}
 	if r.IntN(3) == 0 {
 		c["nested"] = []any{runes(take())}
+		nf := []any{}
+		if r.IntN(2) == 0 { // the nested message's fields live in a scope of their own
+			nf = append(nf, runes(nestedFieldVocab[r.IntN(len(nestedFieldVocab))]))
+		}
+		c["nfields"] = []any{nf}
 	}
 	if r.IntN(4) == 0 {
 		c["enums"] = []any{runes(take())}
+		ev := []any{}
+		if r.IntN(2) == 0 { // values share M's scope: a name that is in use would be rejected by protoc
+			if v := valueVocab[r.IntN(len(valueVocab))]; !usedIn(c, v) {
+				ev = append(ev, runes(v))
+			}
+		}
+		c["evals"] = []any{ev}
+	}
+	if r.IntN(6) == 0 { // an extension declared in M (M's scope)
+		if x := []string{"foo", "bar", "x"}[r.IntN(3)]; !usedIn(c, x) && !inEvals(c, x) {
+			c["exts"] = []any{runes(x)}
+		}
+	}
+	if r.IntN(6) == 0 { // a top-level enum (package scope: M and ZZBase are taken)
+		te := topEnumVocab[r.IntN(len(topEnumVocab))]
+		c["tenum"] = []any{core.Case{"n": runes(te[0]), "vals": []any{runes(te[1])}}}
 	}
 	return c
 }
